@@ -25,6 +25,12 @@ async fn run_lines(lines: &[String], work: &PathBuf, stats: &mut Stats) -> Vec<S
                 let dmax = kv.get("dmax").and_then(|v| v.parse::<i64>().ok());
                 match (id, keys, dmax) {
                     (Some(id), Some(keys), Some(dmax)) if keys <= 12 && dmax <= 64 => {
+                        // uid order = creation order, or its reverse (`uids=desc`)
+                        if kv.get("uids").map(|v| v == "desc").unwrap_or(false) {
+                            discret::verif_hooks::uid::set_descending(1 << 40);
+                        } else {
+                            discret::verif_hooks::uid::set_sequential(1);
+                        }
                         world = Some(World::new(work.clone(), id, keys, dmax));
                         stats.inc("cases");
                         format!("case {}", id)
@@ -168,6 +174,8 @@ fn run_parallel(ops: &str, out: &str, stats_path: Option<&str>, work: &str, jobs
 }
 
 fn run_single(ops: &str, out: &str, stats_path: Option<&str>, work: &str) {
+    // uids in creation order: the order SQLite returns equal-date rows in becomes deterministic
+    discret::verif_hooks::uid::set_sequential(1);
     let rt = tokio::runtime::Builder::new_multi_thread()
         .worker_threads(2)
         .enable_all()
